@@ -19,6 +19,7 @@ import (
 	"strconv"
 	"strings"
 	"sync"
+	"syscall"
 	"testing"
 	"time"
 
@@ -564,6 +565,9 @@ func runBatchChild(cfg RunConfig, job batchJob) *BatchResult {
 			var sc Scenario
 			if json.Unmarshal(b, &sc) == nil {
 				sc.Prop = cfg.Prop
+				if code == 66 {
+					return &BatchResult{Prop: cfg.Prop, Batch: job.batch, Stats: NewStats(), Violation: &Violation{Property: cfg.Prop, Clause: "race_report", Detail: "the race detector ended the process while this scenario ran: " + raceSummary(out), Scenario: &sc}}
+				}
 				return &BatchResult{Prop: cfg.Prop, Batch: job.batch, Stats: NewStats(), Violation: &Violation{Property: cfg.Prop, Clause: "fatal", Detail: fmt.Sprintf("the process died (exit %d) while running this input: %s", code, fatalClass(out)), Scenario: &sc}}
 			}
 		}
@@ -612,14 +616,24 @@ func (w *watchdog) arm(sc *Scenario, st *Stats, prop string, batch int, seed uin
 		w.timer.Stop()
 	}
 	st.progress.Store(time.Now().UnixNano())
+	st.progressCPU.Store(int64(processCPU()))
 	var fire func()
 	fire = func() {
 		// the limit applies to one evaluation: Doing() marks progress
 		idle := time.Duration(time.Now().UnixNano() - st.progress.Load())
-		if idle < w.limit {
+		// the limit is meant in CPU time of this process, so that a loaded machine
+		// cannot cause an alarm: fire only if the evaluation has also consumed at least
+		// limit/2 of CPU since it started (a busy loop), or has been silent for 20x the
+		// limit (blocked forever)
+		cpu := processCPU() - time.Duration(st.progressCPU.Load())
+		if idle < w.limit || (cpu < w.limit/2 && idle < 20*w.limit) {
 			w.mu.Lock()
 			if w.timer != nil {
-				w.timer = time.AfterFunc(w.limit-idle+time.Second, fire)
+				next := w.limit / 4
+				if idle < w.limit {
+					next = w.limit - idle + time.Second
+				}
+				w.timer = time.AfterFunc(next, fire)
 			}
 			w.mu.Unlock()
 			return
@@ -689,4 +703,33 @@ func fatalClass(out string) string {
 		}
 	}
 	return lastLines(out, 2)
+}
+
+// processCPU is the CPU time (user + system) this process has consumed.
+func processCPU() time.Duration {
+	var ru syscall.Rusage
+	if err := syscall.Getrusage(syscall.RUSAGE_SELF, &ru); err != nil {
+		return 0
+	}
+	return time.Duration(ru.Utime.Nano() + ru.Stime.Nano())
+}
+
+func raceSummary(out string) string {
+	lines := strings.Split(out, "\n")
+	var keep []string
+	for i, l := range lines {
+		if strings.Contains(l, "WARNING: DATA RACE") {
+			for j := i; j < len(lines) && j < i+12; j++ {
+				if strings.Contains(lines[j], "mcap") || strings.HasPrefix(lines[j], "Write at") || strings.HasPrefix(lines[j], "Previous") || strings.HasPrefix(lines[j], "Read at") {
+					keep = append(keep, strings.TrimSpace(lines[j]))
+				}
+			}
+			break
+		}
+	}
+	s := strings.Join(keep, " | ")
+	if len(s) > 500 {
+		s = s[:500]
+	}
+	return s
 }
